@@ -340,14 +340,22 @@ def build(spec, driver=None):
         g.linear_solver = om.DirectSolver()
     for path, method in spec.get('approx_groups', {}).items():
         groups[path].approx_totals(method=method)
+        if path in spec.get('group_coloring', []):
+            # dynamic coloring of the group's approximated jacobian (computed in the first linearization)
+            groups[path].declare_coloring(wrt='*', method=method, show_summary=False, show_sparsity=False)
     for d in spec.get('dvs', []):
         p.model.add_design_var(d['name'], lower=d['lower'], upper=d['upper'])
     for o in spec.get('objs', []):
         p.model.add_objective(o['name'], index=o.get('index'))
     for o in spec.get('cons', []):
         p.model.add_constraint(o['name'], upper=o['upper'])
+    if driver is None and spec.get('driver_coloring'):
+        driver = om.ScipyOptimizeDriver(optimizer='SLSQP', disp=False)
     if driver is not None:
         p.driver = driver
+    if spec.get('driver_coloring'):
+        # dynamic total coloring: computed by the first compute_totals that uses the driver's variables
+        p.driver.declare_coloring(show_summary=False, show_sparsity=False)
     p._k_groups = groups
     return p
 
